@@ -803,7 +803,13 @@ pub fn expand_env(sh: &Shell, tokens: &mut types::Tokens) {
 
         let mut _token = token.clone();
         while env_in_token(&_token) {
-            _token = expand_one_env(sh, &_token);
+            let expanded = expand_one_env(sh, &_token);
+            if expanded == _token {
+                // nothing could be expanded (e.g. `${a` without a closing
+                // brace): stop instead of looping forever.
+                break;
+            }
+            _token = expanded;
         }
         buff.push((idx, _token));
         idx += 1;
